@@ -31,7 +31,7 @@ def all_configs():
 
 CONFIGS = all_configs()
 QUICK_CONFIGS = ["dbg-none", "rel-ew3"]
-ALL_PROFILES = ["mix", "churn", "grow", "query", "clone", "forge", "events"]
+ALL_PROFILES = ["mix", "churn", "grow", "query", "clone", "forge", "events", "borrow", "fault", "overflow"]
 
 TRUSTED_BASE = [
     "Lean 4.33 kernel (theorems re-checked by `lake build`; thorough tier: leanchecker)",
@@ -468,6 +468,9 @@ RT_PROPS = {
     "C13": dict(profiles=["clone", "mix"], ops={"clone", "switch", "probe", "rows", "events", "dump", "drop", "create", "createw", "destroy"}, summary=True),
     "C14": dict(profiles=["forge", "mix"], ops={"conv", "forge", "create", "createw"}, summary=False),
     "C17": dict(profiles=["events", "mix", "clone"], ops={"events", "clear"}, summary=False),
+    "C11": dict(profiles=["borrow", "mix"], ops={"nest"}, summary=False),
+    # C10: everything observed after a panic matters, so every op kind is in the footprint
+    "C10": dict(profiles=["fault", "overflow", "borrow"], ops=None, summary=True),
 }
 
 
@@ -491,11 +494,13 @@ def concerns(prop, spec, line):
     if p["kind"] == "INVFAIL":
         return prop in ("C12", "C01", "C03", "C08", "C10")
     k = p["op"][0] if p["op"] else "?"
+    if spec["ops"] is None:
+        return True
     if p["obs_differs"] and k in spec["ops"]:
         return True
     if p["summary_differs"] and spec["summary"]:
         return True
-    if k not in set().union(*[s["ops"] for s in RT_PROPS.values()]):
+    if k not in set().union(*[s["ops"] for s in RT_PROPS.values() if s["ops"]]):
         return True  # unclassified op kind: charged to everyone
     return False
 
